@@ -235,17 +235,20 @@ def _by_position(node: ast.AST):
 
 def _constant_index(s: ast.expr, length: int) -> Optional[int]:
     "The position a constant index refers to (`-1` is the last one); None if `s` is not one"
-    negative = isinstance(s, ast.UnaryOp) and isinstance(s.op, ast.USub)
-    c = s.operand if negative else s  # type: ignore
+    negated = isinstance(s, ast.UnaryOp) and isinstance(s.op, ast.USub)
+    c = s.operand if negated else s  # type: ignore
     if not isinstance(c, ast.Constant) or not isinstance(c.value, int):
         return None
-    if not negative:
-        return c.value if c.value >= 0 else None
-    if c.value > length:
+    # (the constant can be negative itself - a captured `i = -1` - whether written `t[i]` or
+    # `t[-i]`)
+    value = -c.value if negated else c.value
+    if value >= 0:
+        return value
+    if -value > length:
         raise FuncADLIndexError(
-            f"Attempt to access element -{c.value} of a tuple only {length} values long."
+            f"Attempt to access element {value} of a tuple only {length} values long."
         )
-    return length - c.value if c.value > 0 else 0
+    return length + value
 
 
 class FuncADLIndexError(Exception):
